@@ -1,8 +1,12 @@
 """C01 — requests cannot read files outside the served directory.
 Oracle (implementation only): no response carries a secret marker planted outside the root
 (every file outside the root, at every ancestor level and in sibling directories, carries a
-unique marker); every target that climbs above the root is answered with an error status."""
-from vlib import common as C, serve as S, reqgen as G, strict_http as H, servecheck as K
+unique marker), nor eight bytes of the marked text of such a file in its body (a Range, or a read
+cut to the size of a namesake, discloses part of a file); every target that climbs above the root
+is answered with an error status.  What a link of the tree itself points to is exempt.
+Generator: the segment grammar below, and the families of vlib/gen_c01.py (tree shapes and request
+classes the grammar does not reach; class table in the generator audit, AUDIT.md)."""
+from vlib import common as C, serve as S, reqgen as G, strict_http as H, servecheck as K, gen_c01 as X
 
 DRIVERS = ['Serve']   # model driver files this check runs: scopes translator failures to the tables they (and the proofs) import
 TRUSTED = ['Linux path resolution on the generated trees (real files on disk through the harness)']
@@ -48,11 +52,11 @@ def gen_target(rng, tree):
 def build(rng, tier):
     batches = []
     for ti in range(8 if tier == 'quick' else 80):
-        tree = S.gen_tree(rng, small=True)
+        tree = X.extend_tree(rng, S.gen_tree(rng, small=True))
         cases = []
         for i in range(320 if tier == 'quick' else 1200):
             t = gen_target(rng, tree)
-            hs = rng.choice([[], [], [('Range', 'bytes=0-')], [('Range', 'bytes=0-5,7-9')], [('Range', 'bytes=-5')]])
+            hs = rng.choice([[], [], [('Range', 'bytes=0-')], [('Range', 'bytes=0-5,7-9')], [('Range', 'bytes=-5')], [('Range', 'bytes=0-40')], [('Range', 'bytes=-30')]])   # the last two: long enough to carry a marker
             m = rng.choice(['GET', 'GET', 'GET', 'HEAD', 'OPTIONS', 'POST'])
             cases.append(K.mk(tree, m, t, hs, entry=rng.choice(['proc', 'preq', 'proc', 'preq', 'aexec', 'aexecl']), kind='traversal'))
         # existing directories followed by doubled/tripled slashes and one '..' more than they are deep
@@ -79,30 +83,58 @@ def build(rng, tier):
                     cases.append(K.mk(tree, 'GET', '/' + n.decode('utf-8', 'surrogateescape'), hs, entry=entry, kind='tree-name'))
         # the application handler called directly (no origin-form gate in front of it): targets WITHOUT a leading slash whose first
         # segments climb, with a file of the same relative name inside the root (so that a guard looking at another spelling passes)
-        for inside in [n.decode('utf-8', 'surrogateescape') for n in tree.names[:4]] + ['secret.txt', 'index.html', 'sib0/secret.html']:
+        for inside in [n.decode('utf-8', 'surrogateescape') for n in tree.names[:4]] + ['secret.txt', 'index.html', 'sib0/secret.html', 'inner.txt', 'sub/inner.txt']:   # the last two exist inside the root AND at every level above it
             for pre in ('../', '../../', '..//', './../', 'x/../../', '..%2F', '%2e%2e/', '..\\', '..?/../', '..#/../'):
                 for entry in ('aexec', 'aexecl', 'proc'):
                     cases.append(K.mk(tree, 'GET', pre + inside, rng.choice([[], [('Range', 'bytes=0-')]]), entry=entry, kind='no-leading-slash'))
-        batches.append((tree, cases))
+        # history probes: after every couple of dozen cases a plain request for a name that exists above the root
+        batches.append((tree, X.with_probes(rng, tree, cases)))
+    # the families of vlib/gen_c01.py (classes the segment grammar does not reach), on trees of their own: one for every depth of
+    # the root below the scratch base in the quick tier
+    for bi in range(5 if tier == 'quick' else 40):
+        tree = X.extend_tree(rng, S.gen_tree(rng, depth_above=bi % 5, small=True))
+        cases = X.families(rng.fork('families-%d' % bi), tree, tier, bi)
+        rng.fork('order-%d' % bi).shuffle(cases)      # families interleaved: every request has another history
+        batches.append((tree, X.with_probes(rng, tree, cases)))
     return batches
 
 def link_target(tree, target):
-    """when the path of `target` names a link of the tree (directly), the file that link points to by symlink(7): a relative
-    target is resolved against the directory the link lives in; path relative to the scratch base, or None"""
+    """the property's exception: when the path of `target` (no `..` of its own) leads THROUGH a link of the tree - as its last
+    component or as a directory on the way - the file the operating system reaches (symlink(7): a relative target is resolved
+    against the directory the link is stored in, `..` at `/` stays at `/`, an absolute target starts at `/`); path relative to
+    the scratch base, or None"""
     p = K.strip_qf(target)
-    rel = b'/'.join(K.norm_comps(p))
-    full = tree.cwd + b'/' + rel
-    t = tree.links.get(full)
-    if t is None: return None
-    stack = [] if t.startswith(b'/') else full.split(b'/')[:-1]
-    if t.startswith(b'/'): return None
-    for comp in t.split(b'/'):
-        if comp in (b'', b'.'): continue
-        if comp == b'..':
-            if not stack: return None
-            stack.pop()
-        else: stack.append(comp)
-    return b'/'.join(stack)
+    comps = K.norm_comps(p)
+    if b'..' in comps: return None
+    links = {tree.root + b'/' + k: v for k, v in tree.links.items()}
+    todo = [c for c in (tree.root + b'/' + tree.cwd).split(b'/') if c] + comps
+    cur, hops = [], 0
+    while todo:
+        c = todo.pop(0)
+        if c in (b'', b'.'): continue
+        if c == b'..':
+            if cur: cur.pop()
+            continue
+        cur.append(c)
+        here = b'/' + b'/'.join(cur)
+        if here in links:
+            hops += 1
+            if hops > 40: return None
+            t = links[here]
+            cur.pop()
+            if t.startswith(b'/'): cur = []
+            todo = t.split(b'/') + todo
+    if hops == 0: return None
+    real = b'/' + b'/'.join(cur)
+    pre = tree.root + b'/'
+    return real[len(pre):] if real.startswith(pre) else None
+
+def outside_markers(tree):
+    """[(marker, path)] of the files outside the root, once per tree"""
+    m = getattr(tree, '_c01_markers', None)
+    if m is None:
+        m = tree._c01_markers = [(content[:23], p) for p, content in tree.outside_root().items() if content.startswith(b'SECRET-')]
+    return m
 
 def judge(res, results):
     for c, r, il, ml in results:
@@ -118,14 +150,28 @@ def judge(res, results):
         tb = c.target.encode('utf-8', 'surrogateescape')
         cl = K.climbs(tb)
         res.count(('climbing ' if cl else 'inside ') + c.entry)
+        res.count('kind ' + str(c.kind))
         allowed = link_target(c.tree, tb)      # the property's exception: what a link placed inside the root by its owner points to
-        for p, content in c.tree.outside_root().items():
-            mk = content[:23]
-            if p == allowed: continue
-            if mk.startswith(b'SECRET-') and mk in emitted:
-                res.fail('outside-file-served', c.line[:300], emitted[:80].hex(), None,
-                         f'C01: target {c.target!r} ({c.entry}) returned the content of {p!r}, which lies outside the served directory {c.tree.cwd!r}')
-                break
+        # a file link with a climbing target asked for through a shallower directory link: open finding on the pinned tree (signature of its own)
+        suffix = ':dir-link-textual' if c.kind == 'dirlink-textual' else ''
+        leaked = False
+        if b'SECRET-' in emitted:
+            for mk, p in outside_markers(c.tree):
+                if p == allowed: continue
+                if mk in emitted:
+                    res.fail('outside-file-served' + suffix, c.line[:300], emitted[:80].hex(), None,
+                             f'C01: target {c.target!r} ({c.entry}) returned the content of {p!r}, which lies outside the served directory {c.tree.cwd!r}')
+                    leaked = True
+                    break
+        if not leaked:
+            # part of a file is content of the file as well (a Range, a read cut to the size of a namesake): eight bytes of the marked text of
+            # a file outside the root in the body of the answer
+            ret = C.unhx(head[4:]) if head.startswith('ret:') and len(head) > 4 else b''
+            pieces = ([r['writes'][0]] if r['writes'] else []) + ([ret] if ret and not (r['writes'] and ret == r['writes'][0]) else [])
+            p = next((q for q in (X.part_leak(c.tree, piece, allowed) for piece in pieces) if q is not None), None)
+            if p is not None:
+                res.fail(('outside-file-served' + suffix) if suffix else 'outside-file-part-served', c.line[:300], emitted[-120:].hex(), None,
+                         f'C01: target {c.target!r} ({c.entry}, {c.headers!r}) returned part of the content of {p!r}, which lies outside the served directory {c.tree.cwd!r}')
         # the status clause is the SERVER's (a target without a leading slash never reaches the handler there: 400); called directly,
         # the handler glues such a target to the host name of the URL it builds and looks the rest up INSIDE the root - only the
         # leak clause above applies to that entry
@@ -142,9 +188,21 @@ def run(res, tier, seed):
     batches = build(rng, tier)
     results = K.run_batches(batches, with_model=WITH_MODEL)
     judge(res, results)
+    # the other observation point the property names: answers of the real binary on a loopback socket (no model side)
+    real, note = X.real_section(rng.fork('real-binary'), tier)
+    if note:
+        res.notes.append(note)
+        res.disagree('real binary on a loopback socket', note[:300], 'built, started and answering', 'real-binary')
+    judge(res, [(c, r, None, None) for c, r in real])
     res.rule = ('trees with the root nested 0..4 levels deep and a uniquely marked secret at every ancestor level and in sibling directories; targets '
                 'from the segment grammar {.., ., empty, names, %2e%2e, ..%2f, ..%2F, %5C, ...., overlong/fullwidth dots, NUL} with repeated/trailing slashes, one in five with random characters percent-encoded in upper or lower hex, '
                 'query/fragment containing .., no leading slash, authority-like prefixes, backslashes; x Range in {none, 0-, multi, suffix} x both '
-                'entry points, and the application handler called directly (App::execute / App::handle_request, no origin-form gate) x GET/HEAD/OPTIONS/POST; distinct = (entry, request)')
+                'entry points, and the application handler called directly (App::execute / App::handle_request, no origin-form gate) x GET/HEAD/OPTIONS/POST; '
+                'every tree extended (vlib/gen_c01.py) with siblings whose names start with the name of the served directory, index pages and namesakes at every level above the root, '
+                'link chains, links with mixed / absolute / dangling targets, directory links pointing down, up and to "."; families on trees of every root depth: targets of up to 2040 '
+                'segments / 60 000 bytes around the climb, prefix-named siblings, out-and-back targets, every method / version / line-end style, 18 Range shapes, climbs hidden in headers, '
+                'every name that exists above the root asked for plainly, every link plain and decorated, targets that climb only on disk (through an upward directory link), '
+                'encoded / look-alike dots and separators, backslashes, multi-byte directories, each lookup step aimed above the root, query / fragment in every order; a history probe after '
+                'every 24 cases; a sample of every family against the real binary on a loopback socket; distinct = (entry, request)')
     for c, r, il, ml in results[:3]:
         res.sample({'entry': c.entry, 'target': c.target, 'status_line': r['recv'][:30].decode('latin1')})
